@@ -24,6 +24,9 @@ TARGETS = [
     "sigma.conversion.base:TextQueryBackend.escape_and_quote_field",
     "sigma.conversion.base:TextQueryBackend.convert_value_str",
     "sigma.conversion.base:TextQueryBackend.decide_string_quoting",
+    "sigma.conversion.base:TextQueryBackend.quote_string",
+    "sigma.types:SigmaString.__add__",
+    "sigma.types:SigmaString.__radd__",
 ]
 BOUNDS = {
     "value string": "every Unicode string with len <= VERIF_LEN (quick 3, thorough 4; convert: 3/4)",
@@ -105,6 +108,8 @@ CFGS = [
     ("\\", "*", "?", '\\"', "'&"),  # 4 with filtered characters
     (None, None, None, "", ""),  # 5 no wildcard support, no escaping
     ("\\", "*", "?", ":", "&"),  # 6 shipped test backend: escape char NOT in the escaped set
+    ("\\", ".*", ".", "\\", ""),  # 7 multi-character wildcard token whose characters are not listed in add_escaped
+    ("\\", "%%", "_", "\\", ""),  # 8 doubled-character wildcard token
 ]
 
 
@@ -258,6 +263,12 @@ def _field_backend(cfg: int):
         b.field_escape = "\\"
         b.field_escape_quote = True
         b.field_escape_pattern = re.compile("\\\\")
+    elif cfg == 3:  # always quote; the escape pattern also matches the quote character and the escape char
+        b.field_quote = "'"
+        b.field_quote_pattern = None
+        b.field_escape = "\\"
+        b.field_escape_quote = True
+        b.field_escape_pattern = re.compile("[^\\w.]")
     else:  # no quoting, escape whitespace and escape char
         b.field_quote = None
         b.field_quote_pattern = None
@@ -277,10 +288,10 @@ def c05f_field(name: str) -> bool:
     text = b.escape_and_quote_field(name)
     q = b.field_quote
     quoted = False
-    if q is not None and len(text) >= 2 and text[0] == q and text[-1] == q and (cfg == 1 or not re.match("^\\w+$", name)):
+    if q is not None and len(text) >= 2 and text[0] == q and text[-1] == q and (cfg in (1, 3) or not re.match("^\\w+$", name)):
         text = text[1:-1]
         quoted = True
-    if cfg == 1 and not quoted:
+    if cfg in (1, 3) and not quoted:
         return fin(False)
     out = []
     i = 0
@@ -293,11 +304,106 @@ def c05f_field(name: str) -> bool:
         else:
             if q is not None and quoted and text[i] == q:
                 return fin(False)  # unescaped quote inside the quoted name terminates it
-            if not quoted and cfg != 1 and text[i].isspace():
+            if not quoted and cfg not in (1, 3) and text[i].isspace():
                 return fin(False)  # unescaped whitespace terminates an unquoted name
             out.append(text[i])
             i += 1
     return fin("".join(out) == name)
+
+
+# --- h. convert_value_str: quoting decision + escaping, also for derived values ---------------------
+VALPH = ["a", " ", '"', "\\", "*", "?", "\t"]
+
+
+def _value_backend(cfg: int):
+    from sigma.backends.test import TextQueryTestBackend
+
+    b = TextQueryTestBackend()
+    b.escape_char = "\\"
+    b.wildcard_multi = "*"
+    b.wildcard_single = "?"
+    b.add_escaped = "\\"
+    b.filter_chars = ""
+    b.str_quote = '"'
+    if cfg == 0:  # quote only when needed (whitespace or empty)
+        b.str_quote_pattern = re.compile("^$|.*\\s", re.S)
+        b.str_quote_pattern_negation = False
+    elif cfg == 1:  # negated form: quote unless the value is a plain word
+        b.str_quote_pattern = re.compile("^\\w+$")
+        b.str_quote_pattern_negation = True
+    elif cfg == 3:  # quote exactly when the value contains whitespace
+        b.str_quote_pattern = re.compile(".*\\s", re.S)
+        b.str_quote_pattern_negation = False
+    else:  # always quote
+        b.str_quote_pattern = None
+    return b
+
+
+def c05h_value_str(n: int, k0: int, k1: int, k2: int, k3: int, op: int) -> bool:
+    """
+    pre: 0 <= n <= P("LEN", 3)
+    pre: 0 <= k0 < 7 and 0 <= k1 < 7 and 0 <= k2 < 7 and 0 <= k3 < 7
+    pre: 0 <= op < 6
+    post: _
+    """
+    from sigma.conversion.state import ConversionState
+
+    ks = [k0, k1, k2, k3]
+    src = ""
+    for i in range(4):
+        if i < n:
+            for j in range(7):
+                if ks[i] == j:
+                    src += VALPH[j]
+        elif ks[i] != 0:
+            return True
+    oo = 0
+    for j in range(6):
+        if op == j:
+            oo = j
+    from vlib.params import concrete_section
+
+    with concrete_section():
+        return fin(_value_str(src, oo, P("CFG", 0)))
+
+
+def _value_str(src: str, op: int, cfg: int) -> bool:
+    from sigma.conversion.state import ConversionState
+
+    b = _value_backend(cfg)
+    v = SigmaString(src)
+    want = ref_parse(src)
+    # derived values, as the modifiers and the backend produce them after parsing
+    if op == 1:
+        v, want = v[1:], want[1:]
+    elif op == 2:
+        v, want = v[:-1], want[:-1]
+    elif op == 3:
+        v, want = SpecialChars.WILDCARD_MULTI + v + SpecialChars.WILDCARD_MULTI, [M] + want + [M]
+    elif op == 4:
+        v, want = v.upper(), [("c", t[1].upper()) if t[0] == "c" else t for t in want]
+    elif op == 5:
+        v, want = v + SigmaString("x y"), want + [("c", "x"), ("c", " "), ("c", "y")]
+    text = b.convert_value_str(v, ConversionState())
+    q = b.str_quote
+    # the decoder of the target language: a literal is either quoted or a bare word
+    if len(text) >= 2 and text[0] == q and text[-1] == q:
+        body = text[1:-1]
+        got = decode_target(body, "\\", "*", "?")
+        # an unescaped quote inside would terminate the literal early
+        i = 0
+        while i < len(body):
+            if body[i] == "\\":
+                i += 2
+                continue
+            if body[i] == q:
+                return False
+            i += 1
+        return got == want
+    # bare word: must not contain anything that ends a bare word, and must not be empty
+    if (text == "" and cfg != 3) or any(ch.isspace() for ch in text) or q in text.replace("\\" + q, ""):
+        return False
+    return decode_target(text, "\\", "*", "?") == want
 
 
 # --- g. regular expression escaping ---------------------------------------------------------------
@@ -374,7 +480,9 @@ OBLIGATIONS = (
     + [Ob("c05c_convert", {"LEN": 3, "CFG": c}, 180) for c in range(len(CFGS)) if c != 3]
     + [Ob("c05c_convert", {"LEN": 2, "CFG": 3}, 180)]
     + [Ob("c05c_convert", {"LEN": 4, "CFG": c}, 900, tier="thorough") for c in range(len(CFGS))]
-    + [Ob("c05f_field", {"LEN": 3, "CFG": c}, 240) for c in range(3)]
+    + [Ob("c05f_field", {"LEN": 3, "CFG": c}, 240) for c in range(4)]
+    + [Ob("c05h_value_str", {"LEN": 3, "CFG": c}, 240) for c in range(4)]
+    + [Ob("c05h_value_str", {"LEN": 4, "CFG": c}, 1200, tier="thorough") for c in range(4)]
     + [Ob("c05g_regex_escape", {"LEN": 3, "CFG": c}, 240) for c in range(3)]
 )
 
